@@ -113,6 +113,66 @@ func main() {
 		r.Explore(fmt.Sprintf("rings-%d", n), fmt.Sprintf("all 16^%d vertex lists x (2 spellings x %d rotations + reversal) x 81 query points", n, n),
 			mc.Opts{MaxDev: -1, Split: 2}, func(c *mc.Ctx) { ringCheck(c, n) })
 	}
+	// size: rings far longer than the enumerated ones (a scan that is blocked, unrolled or indexed above some length
+	// must still see every edge): a saw of n-3 teeth closed along a base line, exact even-odd reference
+	longNs := []int{33, 64, 65, 128, 129, 257, 1025}
+	r.Explore("long-rings", fmt.Sprintf("saw-tooth rings of %v vertices (teeth of height 4 over a base at y = -2) x every rotation by {0, 1, n/2, n-1} x reversal x closed / unclosed x every half-step query point of the band y in [-3, 5]: RingContains, PolygonContains with the saw as the hole of a large square, MultiPolygonContains = exact even-odd", longNs), mc.Opts{MaxDev: -1}, func(c *mc.Ctx) {
+		n := longNs[c.Choose(len(longNs))]
+		m := n - 3 // saw vertices 0..m, then (m,-2), (0,-2)
+		base := make([]exact.IP, 0, n)
+		for i := 0; i <= m; i++ {
+			base = append(base, exact.IP{int64(2 * i), int64(8 * (i % 2))})
+		}
+		base = append(base, exact.IP{int64(2 * m), -4}, exact.IP{0, -4})
+		rot := []int{0, 1, n / 2, n - 1}[c.Choose(4)]
+		rev, closed := c.Bool(), c.Bool()
+		ex := make([]exact.IP, n)
+		for i := range ex {
+			j := (rot + i) % n
+			if rev {
+				j = (rot + n - i) % n
+			}
+			ex[i] = base[j]
+		}
+		ring := make(orb.Ring, 0, n+1)
+		for _, p := range ex {
+			ring = append(ring, orb.Point{float64(p[0]) / 2, float64(p[1]) / 2})
+		}
+		if closed {
+			ring = append(ring, ring[0])
+		}
+		big := orb.Ring{{-10, -10}, {float64(m) + 10, -10}, {float64(m) + 10, 10}, {-10, 10}, {-10, -10}}
+		poly := orb.Polygon{big, ring}
+		multi := orb.MultiPolygon{{{{-50, -50}, {-40, -50}, {-40, -40}, {-50, -50}}}, {ring}}
+		nin, nout := 0, 0
+		for qx := int64(-2); qx <= int64(2*m)+2; qx++ {
+			for qy := int64(-6); qy <= 10; qy++ {
+				in, on := exact.InRingI(ex, exact.IP{qx, qy})
+				want := in || on
+				q := orb.Point{float64(qx) / 2, float64(qy) / 2}
+				if want {
+					nin++
+				} else {
+					nout++
+				}
+				if got := planar.RingContains(ring, q); got != want {
+					c.Failf("ring", "RingContains(saw of %d vertices, rotation %d, reversed %v, closed %v; %v) = %v, exact even-odd says inside=%v boundary=%v", n, rot, rev, closed, q, got, in, on)
+					return
+				}
+				if got := planar.PolygonContains(poly, q); got != !want {
+					c.Failf("polygon", "PolygonContains(square with the saw of %d vertices as a hole, %v) = %v, the hole contains the point: %v", n, q, got, want)
+					return
+				}
+				if got := planar.MultiPolygonContains(multi, q); got != want {
+					c.Failf("multipolygon", "MultiPolygonContains(a far triangle and the saw of %d vertices, %v) = %v, want %v", n, q, got, want)
+					return
+				}
+			}
+		}
+		if nin > 0 && nout > 0 {
+			c.NonTrivial()
+		}
+	})
 	// self-overlapping rings: regions wound twice are OUTSIDE under the even-odd rule (and inside under the
 	// non-zero winding rule); needs at least five edges, more than the exhaustive parts above enumerate
 	overlapping := [][][2]int64{
